@@ -1,5 +1,6 @@
 pub mod addfar;
 pub mod cells;
+pub mod clipperm;
 pub mod geom;
 pub mod iloc;
 pub mod insphere;
